@@ -348,6 +348,14 @@ def q_asm_roundtrip(env, name=None):
             for cnd in r.pc:
                 s.add(cnd)
             s.add(goal)
+            if not is_alias:
+                # keep the replay input clear of the known alias collision so that the native difference is this violation's own
+                s.push()
+                for d in c.payloads:
+                    if len(d) == 1:
+                        s.add(z3.Or(z3.ULT(d[0], 0x10), z3.UGT(d[0], 0x16)))
+                if s.check() != z3.sat:
+                    s.pop()
             qr.queries += 1
             if s.check() != z3.sat:
                 continue
